@@ -1,10 +1,81 @@
-"""C01 -- decided on the shared run stage (Run.tla + Props_Run.tla clauses C01.*); see props/runprops.py and DESIGN.md §7."""
+"""C01 -- run verdict.  (a) shared run stage: clauses C01.false_green / false_red / crash as invariants of Run.tla and on
+the traces of the real ModelRunner; (b) C01.exit_code: the same cases through `python -m behave` child processes."""
+import json
+import random
+from concurrent.futures import ThreadPoolExecutor
+
 from props import runprops
+from run import stage, cases as C, cli, drive, gen as G
+from vlib import trace
+
+
+def _cli_rows(chk, n):
+    rnd = random.Random(chk.seed + 17)
+    pl = stage.plan(chk.tier, chk.seed)
+    picks = rnd.sample(range(len(pl)), min(n, len(pl)))
+    jobs = []
+    for i in picks:
+        prog, cfgs, faults = pl[i]
+        cfg = rnd.choice(cfgs)
+        fault = rnd.choice(faults)
+        case, flat = C.make_case(1, prog, [cfg], [fault])
+        jobs.append({"prog": prog, "flat": flat, "cfg": cfg, "fault": fault, "fault_kind": "exc", "tla": case})
+
+    def one(job):
+        return cli.run_cli(job), drive.run_case(job)
+    with ThreadPoolExecutor(max_workers=8) as ex:
+        outs = list(ex.map(lambda j: cli.run_cli(j), jobs))
+    rows = []
+    for k, (job, out) in enumerate(zip(jobs, outs)):
+        inproc = drive.run_case(job)
+        events = []
+        for e in out["events"]:
+            events.append({"k": e["k"], "name": e.get("name", ""), "el": e.get("el", 0), "tag": e.get("tag", ""), "raised": bool(e.get("raised", False)),
+                           "pos": e.get("pos", 0), "outcome": e.get("outcome", ""), "status": "", "undefined": False, "cid": e.get("cid", 0)})
+        end = inproc["end"]
+        rows.append({"id": k + 1, "prog": job["tla"]["prog"], "cfg": job["tla"]["cfgs"][0], "events": events, "exit": out["exit"],
+                     "end": {"ran": True, "verdict": end["verdict"], "status": end["status"], "step_status": end["step_status"], "hook_failed": end["hook_failed"]},
+                     "base": {"ran": False}})
+        if [(e["k"], e["name"], e["el"], e["pos"]) for e in events] != [(e["k"], e["name"], e["el"], e["pos"]) for e in inproc["events"] if e["k"] in ("hook", "step", "cleanup")]:
+            chk.divergences += 1
+    return jobs, outs, rows
 
 
 def run(chk):
     runprops.apply_shared(chk, ["C01."])
+    jobs, outs, rows = _cli_rows(chk, 40 if chk.quick() else 800)
+    verdicts = trace.judge_rows(chk, "RunCli_Trace", rows, chunks=8)
+    chk.impl_traces += len(rows)
+    chk.extra["cli_child_runs"] = len(rows)
+    chk.extra["cli_exit_codes"] = {str(c): sum(1 for o in outs if o["exit"] == c) for c in sorted({o["exit"] for o in outs})}
+    for rid, vs in verdicts.items():
+        job, out = jobs[rid - 1], outs[rid - 1]
+        for v in vs:
+            c = job["cfg"]
+            chk.violation("C01.exit_code", "C01.exit_code|exit=%d|dry=%d|stop=%d" % (out["exit"], int(c["dry"]), int(c["stop"])),
+                          "python -m behave exit code %d; cfg=%s fault=%s prog=%s stderr=%s" % (out["exit"], json.dumps(c, sort_keys=True), job["fault"], json.dumps(job["prog"]), out["stderr_tail"][-200:]),
+                          {"prog": job["prog"], "cfg": c, "fault": job["fault"], "cli": True})
 
 
 def replay(chk, payload):
-    runprops.replay_case(chk, payload, ["C01."])
+    rp = payload["replay"]
+    if rp.get("cli"):
+        case, flat = C.make_case(1, rp["prog"], [rp["cfg"]], [rp["fault"]])
+        job = {"prog": rp["prog"], "flat": flat, "cfg": rp["cfg"], "fault": rp["fault"], "fault_kind": "exc"}
+        out = cli.run_cli(job)
+        inproc = drive.run_case(job)
+        events = [{"k": e["k"], "name": e.get("name", ""), "el": e.get("el", 0), "tag": e.get("tag", ""), "raised": bool(e.get("raised", False)),
+                   "pos": e.get("pos", 0), "outcome": e.get("outcome", ""), "status": "", "undefined": False, "cid": e.get("cid", 0)} for e in out["events"]]
+        end = inproc["end"]
+        row = {"id": 1, "prog": case["prog"], "cfg": case["cfgs"][0], "events": events, "exit": out["exit"],
+               "end": {"ran": True, "verdict": end["verdict"], "status": end["status"], "step_status": end["step_status"], "hook_failed": end["hook_failed"]},
+               "base": {"ran": False}}
+        verdicts = trace.judge_rows(chk, "RunCli_Trace", [row], chunks=1)
+        chk.impl_traces = 1
+        chk.sample({"replayed": rp, "exit": out["exit"]})
+        for vs in verdicts.values():
+            for v in vs:
+                c = rp["cfg"]
+                chk.violation("C01.exit_code", "C01.exit_code|exit=%d|dry=%d|stop=%d" % (out["exit"], int(c["dry"]), int(c["stop"])), "replayed", rp)
+    else:
+        runprops.replay_case(chk, payload, ["C01."])
